@@ -22,6 +22,8 @@ pub struct Profile {
     /// percentage of cases made almost entirely of operations on the zero-sized-element collections
     /// (sprinkled among other operations, the few-step states they need are rarely reached)
     pub z_heavy_pct: u32,
+    /// weight of the serde / rayon operations among the zero-sized-collection operations
+    pub z_feature_w: (u32, u32),
 }
 
 #[derive(Clone, Debug, Default)]
@@ -127,7 +129,13 @@ pub fn profile(prop: Prop, thorough: bool) -> Profile {
             C05 | C09 => 10,
             C06 | C08 | C10 | C12 | C17 => 8,
             C07 => 15,
+            C15 | C16 => 6,
             _ => 0,
+        },
+        z_feature_w: match prop {
+            C16 => (30, 1),
+            C15 => (1, 30),
+            _ => (1, 1),
         },
     };
     match prop {
@@ -605,19 +613,19 @@ pub fn op_strategy(p: &Profile) -> BoxedStrategy<Op> {
     );
     add(
         w.set_misc,
-        (0u8..2, prop_oneof![1 => Just(0u8), 3 => Just(1u8), 2 => Just(2u8), 2 => Just(3u8), 8 => Just(4u8)], caparg(p))
+        (0u8..2, prop_oneof![1 => Just(0u8), 3 => Just(1u8), 2 => Just(2u8), 2 => Just(3u8), 8 => Just(4u8), 2 => Just(5u8)], caparg(p))
             .prop_map(|(s, which, arg)| Op::SetMisc { s, which, arg })
             .boxed(),
     );
     add(w.set_clone, (0u8..2, any::<bool>()).prop_map(|(d, from)| Op::SetClone { dst: d, src: 1 - d, from }).boxed());
     add(w.set_algebra, Just(Op::SetAlgebra).boxed());
     add(w.set_par, (0u8..6, 1u8..4).prop_map(|(threads, reps)| Op::SetPar { threads, reps }).boxed());
-    add(w.z, zop().prop_map(Op::Z).boxed());
-    add(w.set_serde, (0u8..2, any::<bool>()).prop_map(|(s, in_place)| Op::SetSerde { s, in_place }).boxed());
+    add(w.z, zop(p.z_feature_w).prop_map(Op::Z).boxed());
+    add(w.set_serde, (0u8..2, any::<bool>(), prop::bool::weighted(0.3)).prop_map(|(s, in_place, empty)| Op::SetSerde { s, in_place, empty }).boxed());
     Union::new_weighted(v).boxed()
 }
 
-fn zop() -> BoxedStrategy<crate::zst::ZOp> {
+fn zop(fw: (u32, u32)) -> BoxedStrategy<crate::zst::ZOp> {
     use crate::zst::ZOp::*;
     let t = || proptest::option::of(any::<u8>());
     prop_oneof![
@@ -656,6 +664,8 @@ fn zop() -> BoxedStrategy<crate::zst::ZOp> {
         1 => Just(SetIterate),
         1 => prop::bool::weighted(0.25).prop_map(SetDrain),
         1 => Just(SetClone),
+        fw.0 => prop::bool::weighted(0.6).prop_map(Serde),
+        fw.1 => any::<u8>().prop_map(Par),
     ]
     .boxed()
 }
